@@ -28,7 +28,7 @@ func init() {
 			return 128000
 		},
 		Run:      runC14,
-		Required: []string{"queries.uncapped", "queries.capped_hit", "queries.capped_not_hit", "nets.dag", "nets.dag_with_links_labelled_recurrent", "nets.cyclic", "nets.self_loop", "nets.long_chain", "queries.print_paths", "sequences.after_cap_hit"},
+		Required: []string{"queries.uncapped", "queries.capped_hit", "queries.capped_not_hit", "nets.dag", "nets.dag_with_links_labelled_recurrent", "nets.cyclic", "nets.self_loop", "nets.long_chain", "nets.chain_with_shortcuts_of_dozens_to_hundreds_of_neurons", "queries.print_paths", "sequences.after_cap_hit"},
 	})
 }
 
@@ -95,6 +95,11 @@ func runC14(c *Ctx, idx int) {
 			o.flagForward = pick(r, 0.1, 0.3, 1.0)
 		}
 		s := genNet(r, o)
+		if i%40 == 7 {
+			// dozens to hundreds of neurons: a long chain with a few shortcuts
+			s, cyclic = ladderNet(r), false
+			c.Count("nets.chain_with_shortcuts_of_dozens_to_hundreds_of_neurons", 1)
+		}
 		if s.NOut >= 2 && r.Intn(5) == 0 {
 			// side branches that lead nowhere: hidden neurons without any way on are fed by outputs (forward links, no cycle; such
 			// an output still ends the paths that count)
